@@ -597,6 +597,11 @@ def run(ctx):
     from .c09 import run_r1 as c09_r1
     r8 = ctx.rule("C02-R8", "requests fall short only at the end of the source or on an error: single read site, Interrupted is retried (shared with C09-R1)", floor=8)
     c09_r1(ctx, r8)
+    # R10: a call that panics as documented (advance beyond the buffered data) and is caught must leave the window as it
+    # was: the panic-safety rules of C14-R3 on the reader's trusted fields, run here too
+    from .c14 import run_r3 as c14_r3
+    r10 = ctx.rule("C02-R10", "a refused advance leaves the window untouched: position and length are stored only behind the test that may panic, no wrapped value reaches them, rebasing is not interleaved with calls that may unwind (shared with C14-R3)", floor=5)
+    c14_r3(ctx, r10, reader_only=True)
     ctx.assume("Vec::resize / truncate / copy_within and slice indexing of std behave as documented")
     ctx.assume("wrapping arithmetic is treated as ring arithmetic (laws hold modulo 2^64 as the API documents)")
     return "other", "invariant-preservation obligations of every field-writing reader method, decided by affine path execution over MIR", {}
